@@ -199,7 +199,17 @@ func TestVerifC07Handler(t *testing.T) {
 			}
 			l.epoch = e
 			eps = append(eps, l)
-			multi.AddEpoch(ep.Epoch, e)
+			// the server reaches the full epoch set step by step: the first epoch with AddEpoch, the others with
+			// ReplaceOrAddEpoch (the --watch path), with a request served in between (not judged: it only makes
+			// the server do whatever per-set bookkeeping it does before the set changes)
+			if len(eps) == 1 {
+				multi.AddEpoch(ep.Epoch, e)
+			} else {
+				for acct := 1; acct <= 3; acct++ {
+					vCall(newMultiEpochHandler(multi, nil), fmt.Sprintf(`{"jsonrpc":"2.0","id":1,"method":"getSignaturesForAddress","params":["%s",{"limit":3}]}`, fixture.Account(seed, acct)))
+				}
+				multi.ReplaceOrAddEpoch(ep.Epoch, e)
+			}
 			loadedNums = append(loadedNums, ep.Epoch)
 			for s, tt := range l.built.TxBySig {
 				sigID[s.String()] = tt.Spec.SigID
